@@ -158,6 +158,14 @@ type Trait struct {
 
 // NewTrait instantiates new Trait.
 func NewTrait(config Config, options ...func(t *Trait)) *Trait {
+	t := &Trait{}
+	t.init(config, options...)
+
+	return t
+}
+
+// init sets up the trait in place, background jobs keep using this instance.
+func (t *Trait) init(config Config, options ...func(t *Trait)) {
 	if config.DeleteExpiredAfter == 0 {
 		config.DeleteExpiredAfter = 24 * time.Hour
 	}
@@ -178,11 +186,9 @@ func NewTrait(config Config, options ...func(t *Trait)) *Trait {
 		config.TimeToLive = 5 * time.Minute
 	}
 
-	t := &Trait{
-		Config: config,
-		Stat:   config.Stats,
-		Closed: make(chan struct{}),
-	}
+	t.Config = config
+	t.Stat = config.Stats
+	t.Closed = make(chan struct{})
 	t.Log.setup(config.Logger)
 
 	for _, o := range options {
@@ -196,8 +202,6 @@ func NewTrait(config Config, options ...func(t *Trait)) *Trait {
 	if t.DeleteExpired != nil || t.Evict != nil {
 		go t.janitor()
 	}
-
-	return t
 }
 
 // PrepareRead handles cached entry.
